@@ -6,9 +6,12 @@ use crate::model::{J, N};
 use crate::src::Src;
 
 /// Keys shared between documents and expressions so that look-ups hit often.
-pub const KEYS: &[&str] = &["a", "b", "c", "d", "foo", "bar", "id", "k", "n", "s"];
+pub const KEYS: &[&str] = &["a", "b", "c", "d", "foo", "bar", "id", "k", "n", "s", "ab", "ba", "aa", "abc"];
 /// Keys that need the quoted-identifier spelling.
-pub const ODD_KEYS: &[&str] = &["", "a b", "0", "a-b", "é", "日本", "😀", "q\"q", "b\\s", "@", "*", "a.b", "\n", "true"];
+pub const ODD_KEYS: &[&str] = &[
+    "", "a b", "0", "a-b", "é", "日本", "😀", "q\"q", "b\\s", "@", "*", "a.b", "\n", "true", "e\u{301}", "\u{e9}\u{301}", "ß", "SS", "ǆ", "\u{5d0}\u{5d1}", "\u{d7ff}", "\u{e000}", "\u{fffe}", "\u{ffff}",
+    "a\u{0}b", "A", "İ", "ı", "ﬁ", "a ", " a",
+];
 
 pub const STRINGS: &[&str] = &[
     "", "a", "b", "abc", "foo", "bar", "Bar", "é", "日本語", "😀", "a b", "0", "1", "true", "null", "1.5", "[1]", "aé😀", "x'y", "q\"q",
@@ -101,7 +104,7 @@ pub fn gen_number(src: &mut Src) -> J {
             4 => J::f(1e-17),
             5 => J::f(-3e-200),
             6 => J::f(5e-324),
-            _ => J::int(0),
+            _ => if src.flip() { J::f(-0.0) } else { J::int(0) },
         };
     }
     match src.weighted(&[10, 6, 2, 3]) {
@@ -135,8 +138,8 @@ pub fn gen_char(src: &mut Src) -> char {
     match src.weighted(&[10, 3, 2, 2, 2, 1]) {
         0 => (b'a' + src.below(26) as u8) as char,
         1 => *src.pick(&['\'', '"', '`', '\\', ' ', '/', '-', '0', '9', '_', 'A', 'Z']),
-        2 => *src.pick(&['é', 'ß', 'λ', 'Ж', 'א', '\u{301}', '\u{200d}']),
-        3 => *src.pick(&['日', '本', '語', '한', '\u{ffff}', '\u{fffd}']),
+        2 => *src.pick(&['é', 'ß', 'λ', 'Ж', 'א', '\u{301}', '\u{200d}', 'İ', 'ı', 'ǆ', 'ŉ', 'ﬁ', '\u{308}', '\u{5d1}', '\u{627}', '\u{200f}', '\u{202e}', 'Σ', 'ς']),
+        3 => *src.pick(&['日', '本', '語', '한', '\u{ffff}', '\u{fffd}', '\u{d7ff}', '\u{e000}', '\u{fffe}', '\u{fdd0}', '\u{1fffe}', '\u{7ff}', '\u{800}']),
         4 => *src.pick(&['😀', '𝄞', '\u{10000}', '\u{10ffff}', '🇺']),
         _ => *src.pick(&['\n', '\t', '\r', '\u{0}', '\u{1f}', '\u{7f}', '\u{8}', '\u{c}', '\u{80}', '\u{85}', '\u{9f}', '\u{a0}', '\u{ad}', '\u{2028}', '\u{feff}']),
     }
